@@ -1,5 +1,6 @@
 import NimaVerif.Props.C01
 #print axioms Nima.C01.formatTrivia_newline_terminated
+#print axioms Nima.C01.formatTrivia_newline_terminated_all
 #print axioms Nima.C01.formatTrivia_empty_iff
 #print axioms Nima.C01.formatTrivia_comment_closed
 #print axioms Nima.C01.comment_rendering_open
